@@ -210,7 +210,9 @@ func (eds *EdsGenerator) buildEndpoints(proxy *model.Proxy,
 	cached := 0
 	regenerated := 0
 
-	for clusterName := range w.ResourceNames {
+	// Visit the subscribed clusters in a fixed order so that the response lists the resources
+	// in the same order in every generation.
+	for _, clusterName := range sets.SortedList(w.ResourceNames) {
 		affected := affectedService(proxy, edsUpdatedServices, clusterName)
 		if partialPush && changedDrs.IsEmpty() && changedAuthnNs.IsEmpty() &&
 			!affected {
